@@ -200,9 +200,8 @@ def run_case(ck, case, ctx):
         arr = np.asarray(arr)
         d_int, Kd = dyadic_scale(arr.astype(np.float64).ravel())
         mag = exact_integral(ref_areas, arr)[1] if (impl[0] == "ok" and arr.shape[-1] == nf) else None
-        for bn in (0, 1):
-            ctx.model_lines.append(sx([bn, list(counts), a_int, [list(arr.shape), [CODE[d] for d in dims], 7, 11, d_int]]))
-            ctx.model_meta.append((bn, what, case, Ka + Kd, impl, dims, mag))
+        ctx.model_lines.append(sx([list(counts), a_int, [list(arr.shape), [CODE[d] for d in dims], 7, 11, d_int]]))
+        ctx.model_meta.append((what, case, Ka + Kd, impl, dims, mag))
 
     # ---- face-centred data: value, dims, name, grid ----
     for rep in range(2):
@@ -291,12 +290,12 @@ def run_case(ck, case, ctx):
 
 
 def compare_models(ck, ctx):
-    """the implementation has to agree with ONE dispatch variant of the model on every case: same
-    accept/reject decision, same result shape and dims, values equal to the model's exact sums"""
-    res = ck.run_model("c06", ctx.model_lines)
-    bad = {0: [], 1: []}
+    """the implementation has to agree with the model of the current tree (c06_integrate_cur: dimension
+    names n_node / n_edge rejected first, then size dispatch) on every case: same accept/reject
+    decision, same result shape and dims, values equal to the model's exact sums"""
+    res = ck.run_model("c06_cur", ctx.model_lines)
     n = 0
-    for (bn, what, case, K, impl, dims, mag), r in zip(ctx.model_meta, res):
+    for (what, case, K, impl, dims, mag), r in zip(ctx.model_meta, res):
         n += 1
         why = None
         if r[0] == "ERR":
@@ -315,16 +314,9 @@ def compare_models(ck, ctx):
                     if mag is not None and not close(iv, Fraction(mv, 1 << K), mag[i]):
                         why = "value %d: model %r, implementation %r" % (i, float(Fraction(mv, 1 << K)), iv)
                         break
-        if why:
-            bad[bn].append({"what": why, "centre": what, "dims": dims, "case": case["grid"]["name"]})
-    if not bad[0]:
-        variant = "size dispatch only (faithful model, byname = false)"
-    elif not bad[1]:
-        variant = "node/edge dimension names rejected first (repaired model, byname = true)"
-    else:
-        variant = "neither"
-        ck.corr_failures += [bad[0][0], bad[1][0]]
-    return n // 2, variant
+        if why and len(ck.corr_failures) < 5:
+            ck.corr_failures.append({"what": why, "centre": what, "dims": dims, "case": case["grid"]["name"]})
+    return n, "dimension names n_node / n_edge rejected first, then size dispatch (c06_integrate_cur, fix 3b40859b)"
 
 
 def main(ck):
@@ -361,18 +353,18 @@ def main(ck):
         try:
             n_model, variant = compare_models(ck, ctx)
             # extraction audit: a few small cases evaluated by the kernel
-            small = [(l, m) for l, m in zip(ctx.model_lines, ctx.model_meta) if len(l) < 400 and m[0] == 0][:12]
+            small = [(l, m) for l, m in zip(ctx.model_lines, ctx.model_meta) if len(l) < 400][:12]
             exprs = []
             for l, m in small:
                 v = common.parse_sx(l)
 
                 def zl(xs):
                     return "[" + "; ".join("(%d)" % x for x in xs) + "]"
-                exprs.append("Eval vm_compute in (match c06_integrate false {| c06_nface := %d; c06_nnode := %d; c06_nedge := %d |} %s "
+                exprs.append("Eval vm_compute in (match c06_integrate_cur {| c06_nface := %d; c06_nnode := %d; c06_nedge := %d |} %s "
                              "{| c06_shape := %s; c06_dims := %s; c06_name := 7; c06_grid := 11; c06_data := %s |} with "
                              "C06_ok r => (1, c06_data r) | C06_index_error => (0, [0]) | C06_node_error => (0, [1]) "
                              "| C06_edge_error => (0, [2]) | C06_size_error => (0, [3]) end)."
-                             % (v[1][0], v[1][1], v[1][2], zl(v[2]), zl(v[3][0]), zl(v[3][1]), zl(v[3][4])))
+                             % (v[0][0], v[0][1], v[0][2], zl(v[1]), zl(v[2][0]), zl(v[2][1]), zl(v[2][4])))
             rc, out = ck.audit_vm(exprs, "From Verif Require Import Base C06.\nOpen Scope Z_scope.")
             audit_n = 0
             if rc != 0:
@@ -380,7 +372,7 @@ def main(ck):
             else:
                 import re
                 blocks = re.split(r"(?m)^\s*= ", out)[1:]
-                ext = ck.run_model("c06", [l for l, _ in small])
+                ext = ck.run_model("c06_cur", [l for l, _ in small])
                 for b, e in zip(blocks, ext):
                     nums = [int(x) for x in re.findall(r"-?\d+", b.split("\n     :")[0])]
                     want = [1] + e[5] if e[0] == "ok" else [0, int(e[1])]
@@ -393,7 +385,7 @@ def main(ck):
         except Exception as ex:
             ck.proof["errors"].append("model run failed: %r" % (ex,))
     ck.extra.update({
-        "distribution": ctx.hist, "model_vs_impl_cases": n_model, "dispatch_variant_matching_the_implementation": variant,
+        "distribution": ctx.hist, "model_vs_impl_cases": n_model, "model_variant_of_the_current_tree": variant,
         "worst_error_relative_to_sum_abs": float("%.3g" % ctx.worst),
         "tolerances": {"value/linear/one": "1e-12 * sum_f |area_f * value_f| (exact rationals)"},
         "clauses_checked_on_impl": ["value", "dims", "name", "grid", "linear", "one", "reject", "raises"],
